@@ -203,38 +203,112 @@ def _flatten(r):
         yield r
 
 
+BLOCKERS = [[b'blpop', b'l0', b'5'], [b'brpop', b'l0', b'l1', b'0'], [b'brpoplpush', b'l0', b'dst', b'5'], [b'brpoplpush', b'l0', b'l0', b'0'],
+            [b'brpoplpush', b'l0', b'l1', b'5'], [b'blpop', b'l1', b'l0', b'2']]
+PRESTATES = [[], [[b'rpush', b'dst', b'old']], [[b'rpush', b'l1', b'z']], [[b'set', b'dst', b'str']], [[b'rpush', b'l0', b'have']]]
+INTERFERE = [[], [[b'rpush', b'dst', b'x']], [[b'rpush', b'dst', b'x'], [b'lpush', b'dst', b'y']], [[b'set', b'dst', b'str']], [[b'del', b'dst'], [b'rpush', b'dst', b'n']],
+             [[b'sadd', b'l0', b'm']], [[b'rpush', b'l1', b'y']], [[b'select', b'1'], [b'rpush', b'l0', b'otherdb'], [b'select', b'0']],
+             [[b'rpush', b'l0', b'p'], [b'lpop', b'l0']], [[b'swapdb', b'0', b'1']], [[b'multi'], [b'rpush', b'l0', b'q1', b'q2'], [b'exec']],
+             [[b'expire', b'dst', b'100']], [[b'rpush', b'tmp', b't'], [b'rename', b'tmp', b'dst']]]
+FEEDS = [[[b'rpush', b'l0', b'a']], [[b'lpush', b'l0', b'a', b'b']], [[b'rpush', b'l1', b'c']], [[b'rpush', b'l0', b'']], []]
+
+
+def scenario_plans():
+    """small scope, in full: one consumer parks (or is served at once), a producer interferes with the keys involved while the lock is
+    free, feeds a source, the consumer is woken; everything is then read back.  The blocking command must take effect on the state AT ITS
+    WAKE-UP (its last critical section), not on anything looked up before it parked."""
+    import itertools
+    for blk, pre, mid, feed in itertools.product(BLOCKERS, PRESTATES, INTERFERE, FEEDS):
+        def plan(s, rng, blk=blk, pre=pre, mid=mid, feed=feed):
+            s.tokens = 0
+            s.in_multi = set()
+            s.cdb = 0
+            yield ('open', 1)
+            yield ('open', 2)
+            for f in pre:
+                yield ('cmd', 2, list(f))
+            yield ('cmd', 1, list(blk))
+            for f in mid:
+                yield ('cmd', 2, list(f))
+            for f in feed:
+                yield ('cmd', 2, list(f))
+            for _ in range(3):
+                w = s.impl.waiters.get(1)
+                if w is None or not w['notified']:
+                    break
+                yield ('wake', 1)
+            for k in (b'l0', b'l1', b'dst'):
+                yield ('cmd', 2, [b'type', k])
+            for k in (b'l0', b'l1', b'dst'):
+                if s.impl.socks[2]._db.get(k) is not None and isinstance(s.impl.socks[2]._db[k].value, list):
+                    yield ('cmd', 2, [b'lrange', k, b'0', b'-1'])
+            w = s.impl.waiters.get(1)
+            if w is not None:
+                if w['timeout'] is not None:
+                    yield ('adv', int(w['timeout'] * 1000) + 1)
+                    yield ('timeout', 1)
+                else:
+                    yield ('cmd', 2, [b'select', b'0'])
+                    yield ('cmd', 2, [b'del', b'l0', b'l1'])
+                    yield ('cmd', 2, [b'rpush', b'l0', b'fin'])
+                    yield ('wake', 1)
+        yield plan
+
+
+def _run_sched_plan(res, plan, hseed, version):
+    """-> True when a finding was recorded"""
+    rng = random.Random(hseed)
+    s = corr.Session(version, hseed, True, (mon_blocking,), sched=True)
+    s.violations = []
+    events, div = [], None
+    try:
+        for ev in plan(s, rng):
+            events.append(ev)
+            s.step(ev)
+    except corr.Divergence as d:
+        div = d
+    finally:
+        s.impl.shutdown()
+    res.absorb(s)
+    res.cells |= {('sched', e[0], Cn.name_of(e[2]) if e[0] == 'cmd' else '') for e in events}
+    if len(res.samples) < 2:
+        res.samples.append({'version': version, 'seed': hseed, 'events': [corr.ev_json(e) for e in events[:25]]})
+    if s.violations:
+        v = s.violations[0]
+        res.add({'kind': 'monitor', 'property': 'C11', 'clause': v.clause, 'detail': v.detail, 'version': version, 'seed': hseed,
+                 'sched': True, 'events': [corr.ev_json(e) for e in events[:v.index + 1]]})
+        return True
+    if div is not None:
+        res.add({'kind': 'divergence', 'verdict': 'violation', 'what': div.what, 'version': version, 'seed': hseed, 'sched': True,
+                 'events': [corr.ev_json(e) for e in events], 'impl': div.impl_side, 'model': div.model_side,
+                 'at': corr.ev_json(div.event)})
+        return True
+    return False
+
+
+def run_sched_scenarios(res, tier, seed, t_end, sample):
+    plans = list(scenario_plans())
+    rng = random.Random(seed * 131 + 5)
+    if tier == 'quick' and len(plans) > sample:
+        plans = rng.sample(plans, sample)
+    for i, plan in enumerate(plans):
+        if time.time() > t_end:
+            res.notes.append('sched scenarios: time budget reached after %d' % i)
+            return
+        if _run_sched_plan(res, plan, (seed * 7 + i) & 0x7fffffff, 6 + (i + seed) % 2):
+            return
+    if tier == 'thorough':
+        res.notes.append('sched scenarios: all %d' % len(plans))
+
+
 def run_sched_campaign(res, tier, seed, t_end, n_hist, length):
     for h in range(n_hist):
         if time.time() > t_end:
             res.notes.append('time budget reached')
             break
         hseed = (seed * 1000003 + h * 7919 + 11) & 0x7fffffff
-        rng = random.Random(hseed)
-        version = rng.choice([6, 7])
-        s = corr.Session(version, hseed, True, (mon_blocking,), sched=True)
-        s.violations = []
-        events, div = [], None
-        try:
-            for ev in plan_blocking(length)(s, rng):
-                events.append(ev)
-                s.step(ev)
-        except corr.Divergence as d:
-            div = d
-        finally:
-            s.impl.shutdown()
-        res.absorb(s)
-        res.cells |= {('sched', e[0], Cn.name_of(e[2]) if e[0] == 'cmd' else '') for e in events}
-        if len(res.samples) < 2:
-            res.samples.append({'version': version, 'seed': hseed, 'events': [corr.ev_json(e) for e in events[:25]]})
-        if s.violations:
-            v = s.violations[0]
-            res.add({'kind': 'monitor', 'property': 'C11', 'clause': v.clause, 'detail': v.detail, 'version': version, 'seed': hseed,
-                                 'sched': True, 'events': [corr.ev_json(e) for e in events[:v.index + 1]]})
-            return
-        if div is not None:
-            res.add({'kind': 'divergence', 'verdict': 'violation', 'what': div.what, 'version': version, 'seed': hseed, 'sched': True,
-                                 'events': [corr.ev_json(e) for e in events], 'impl': div.impl_side, 'model': div.model_side,
-                                 'at': corr.ev_json(div.event)})
+        version = random.Random(hseed).choice([6, 7])
+        if _run_sched_plan(res, plan_blocking(length), hseed, version):
             return
 
 
